@@ -120,24 +120,37 @@ class Signal(np.lib.mixins.NDArrayOperatorsMixin):
         if is_dask:
             # Keywords of NumPy ufuncs that Dask's do not take: the casting rule
             # is applied below, the others are layout hints.
+            explicit_casting = "casting" in kwargs
             casting = kwargs.pop("casting", "same_kind")
             kwargs.pop("order", None)
             kwargs.pop("subok", None)
-            if kwargs.get("dtype") is not None:
+            loop = kwargs.pop("dtype", None)
+            if loop is not None or explicit_casting:
                 # ``dtype`` selects the loop (the precision the computation is
                 # done in); Dask would only relabel the result. Resolve the loop
-                # as NumPy does and cast the operands to its input types.
-                loop = np.dtype(kwargs.pop("dtype"))
+                # as NumPy does (Python scalars stay weakly typed) and cast the
+                # array operands to its input types; this also applies the
+                # casting rule to the operands.
+                weak = (int, float, complex)
                 in_arr = tuple(
-                    a if isinstance(a, (np.ndarray, dask.array.Array)) else np.asarray(a)
+                    a
+                    if isinstance(a, (np.ndarray, dask.array.Array)) or type(a) in weak
+                    else np.asarray(a)
                     for a in in_arr
                 )
+                spec = tuple(type(a) if type(a) in weak else a.dtype for a in in_arr)
+                signature = None
+                if loop is not None:
+                    signature = (None,) * ufunc.nin + (np.dtype(loop),) * ufunc.nout
+                extra = {} if signature is None else {"signature": signature}
                 resolved = ufunc.resolve_dtypes(
-                    tuple(a.dtype for a in in_arr) + (None,) * ufunc.nout,
-                    signature=(None,) * ufunc.nin + (loop,) * ufunc.nout,
-                    casting=casting,
+                    spec + (None,) * ufunc.nout, casting=casting, **extra
                 )
-                in_arr = tuple(a.astype(dt) for a, dt in zip(in_arr, resolved))
+                if loop is not None:
+                    in_arr = tuple(
+                        a if type(a) in weak else a.astype(dt)
+                        for a, dt in zip(in_arr, resolved)
+                    )
 
         if any(isinstance(o, dask.array.Array) for o in out_arr):
             # Dask would rebind an output array to the dtype of the result;
@@ -156,6 +169,9 @@ class Signal(np.lib.mixins.NDArrayOperatorsMixin):
                     )
                 if isinstance(o, dask.array.Array):
                     r = dask.array.asarray(r).astype(o.dtype)
+                    if r.shape != o.shape:
+                        # (the operands may broadcast up to the output)
+                        r = dask.array.broadcast_to(r, o.shape)
                     if where is not True:
                         # Samples that are masked out keep their value.
                         r = dask.array.where(where, r, o)
